@@ -62,21 +62,9 @@ func refEdges(v *view, p *Prog) []edge {
 
 // classProg names the divergence class of a whole program: "" when no listed finding applies to the
 // input, else the first trigger present. A predicate of the input only. After the repairs of F16,
-// F16-1..F16-7, F16-9 and F16-10 two classes are left.
+// F16-1..F16-7, F16-9, F16-10 and F16-11 one class is left.
 func classProg(v *view, p *Prog) string {
 	edges := refEdges(v, p)
-	// F16-11: an import that fails from the importing package is tried again from the location of the main
-	// file — a package outside the directory of the main package then sees the main package's vendor directories
-	if p.Entry == "file" {
-		for _, e := range edges {
-			if e.dir != "" || isRel(e.ipath) || vendorElem(e.ipath) || e.importerRel == "-" {
-				continue
-			}
-			if v.refResolve(p.Main, e.ipath) != "none" {
-				return "retried-from-main-location"
-			}
-		}
-	}
 	// F16-8: srcPkg is keyed by import path — the same import path denotes two directories for two importers
 	dirOf := map[string]string{}
 	for _, e := range edges {
